@@ -40,6 +40,7 @@ type Exec struct {
 	retConds  []string
 	retCount  int
 	callBlock map[string]*ssa.BasicBlock // "callee#ordinal" -> block containing the call (for keep before/after)
+	writeSets map[*ssa.Function]map[string]bool
 	pureMemo  map[string]Val
 	notedFacts map[string]bool
 	pending   []string
@@ -999,7 +1000,7 @@ func (x *Exec) fixPtr(v Val) Val {
 // objects allocated at function entry and not named by the modifies clause are
 // unchanged w.r.t. the function entry state.
 func (x *Exec) autoFrame(st *State, keys map[string]bool) string {
-	if x.top == nil || x.top.ModAll {
+	if x.top == nil || x.top.ModAll || x.top.ModStatic {
 		return "true"
 	}
 	var cs []string
